@@ -65,6 +65,8 @@ type World struct {
 	Order []string
 	nvid  int
 
+	pending []pendingBatch
+
 	// WrapData/WrapMeta, when set before Open, wrap the stores the engines see.
 	IData *stores.InstrDataStore
 	IMeta *stores.InstrMetaStore
@@ -205,25 +207,56 @@ func (w *World) Ingest(ei int, recs []*RowRec) (chan error, error) {
 	return done, err
 }
 
+// IngestPoison sends a batch that must be rejected as a whole: a few good rows with fresh
+// entries followed by a row encoding/json cannot marshal. The good rows are registered with
+// Count 0 (never stored). The caller checks that the returned channel yields an error.
+func (w *World) IngestPoison(r *core.Rand, ei int) (chan error, error) {
+	var rows []map[string]any
+	for k, n := 0, r.Range(1, 3); k < n; k++ {
+		rows = append(rows, w.NewRow(r, ei).Row)
+	}
+	bad := map[string]any{"_vid": "poison", "novel_field_of_poison_row": "novelpoisontoken", "bad": func() {}}
+	pos := r.Range(1, len(rows))
+	rows = append(rows[:pos], append([]map[string]any{bad}, rows[pos:]...)...)
+	done := make(chan error, 2)
+	return done, w.Eng[ei].IngestRows(context.Background(), rows, done)
+}
+
 // IngestSync ingests batches, flushes, and counts acked rows in the ledger.
 func (w *World) IngestSync(ei int, batches [][]*RowRec) error {
-	type pend struct {
-		ch   chan error
-		recs []*RowRec
-	}
-	var ps []pend
-	for _, b := range batches {
-		ch, err := w.Ingest(ei, b)
-		if err != nil {
-			return err
-		}
-		ps = append(ps, pend{ch, b})
+	if _, err := w.ingestNoFlush(ei, batches); err != nil {
+		return err
 	}
 	ctx, cancel := context.WithTimeout(context.Background(), 60*time.Second)
 	defer cancel()
 	if err := w.Eng[ei].Flush(ctx); err != nil {
 		return fmt.Errorf("flush: %w", err)
 	}
+	return w.settlePending()
+}
+
+type pendingBatch struct {
+	ch   chan error
+	recs []*RowRec
+}
+
+// ingestNoFlush sends batches and remembers their done channels; a later IngestSync (or
+// settlePending after a Flush) collects the answers.
+func (w *World) ingestNoFlush(ei int, batches [][]*RowRec) (int, error) {
+	for _, b := range batches {
+		ch, err := w.Ingest(ei, b)
+		if err != nil {
+			return 0, err
+		}
+		w.pending = append(w.pending, pendingBatch{ch, b})
+	}
+	return len(batches), nil
+}
+
+// settlePending waits for the answer of every remembered batch and counts acked rows.
+func (w *World) settlePending() error {
+	ps := w.pending
+	w.pending = nil
 	var errs []error
 	for _, p := range ps {
 		select {
